@@ -1,402 +1,8 @@
-import PyemvGen.TlvGen
-import PyemvProofs.TlvLen
-import PyemvProofs.TlvConvert
+import PyemvGen.TlvRefinesDec
+import PyemvGen.TlvRefinesEnc
 /-!
 # The definitions translated from `pyemv/tlv.py` equal the hand-written model
 
 `TlvGen.decode = Tlv.decodeC` and `TlvGen.encode = Tlv.encode` for every argument; the generated file is
 rebuilt from the repository's current source on every run, these proofs are checked against it.
 -/
-namespace Pyemv.TlvRefines
-open Pyemv Pyemv.Tlv Pyemv.TlvGen
-
-/-! ### aliasing: `dec[tag] = {}` then `_decode(…, dec[tag], …)` -/
-
-theorem find_set_self {α} (d : DictC α) (k : Bytes) (v : NodeC α) :
-    (DictC.set d k v).find? (fun p => p.1 == k) = some (k, v) := by
-  unfold DictC.set
-  split
-  · rename_i h
-    induction d with
-    | nil => simp at h
-    | cons x xs ih =>
-      simp only [List.map_cons, List.find?_cons]
-      by_cases hx : (x.1 == k) = true
-      · simp [hx]
-      · simp only [hx, Bool.false_eq_true, if_false]
-        simp only [List.any_cons, hx, Bool.false_or] at h
-        simpa [hx] using ih h
-  · rename_i h
-    rw [List.find?_append]
-    have : d.find? (fun p => p.1 == k) = none := by
-      rw [List.find?_eq_none]; intro p hp hk
-      apply h; rw [List.any_eq_true]; exact ⟨p, hp, hk⟩
-    simp [this]
-
-theorem getCons_set_nil {α} (d : DictC α) (k : Bytes) : DictC.getCons (DictC.set d k (.cons [])) k = [] := by
-  unfold DictC.getCons; rw [find_set_self]
-
-theorem any_set {α} (d : DictC α) (k : Bytes) (v : NodeC α) : (DictC.set d k v).any (fun p => p.1 == k) = true := by
-  have := find_set_self d k v
-  rw [List.any_eq_true]
-  exact ⟨(k, v), List.mem_of_find?_eq_some this, by simp⟩
-
-theorem set_of_any {α} (d : DictC α) (k : Bytes) (w : NodeC α) (h : d.any (fun p => p.1 == k) = true) :
-    DictC.set d k w = d.map (fun p => if p.1 == k then (k, w) else p) := by
-  simp [DictC.set, h]
-
-theorem set_set {α} (d : DictC α) (k : Bytes) (v w : NodeC α) : DictC.set (DictC.set d k v) k w = DictC.set d k w := by
-  rw [set_of_any _ k w (any_set d k v)]
-  unfold DictC.set
-  split
-  · rw [List.map_map]; apply List.map_congr_left; intro p _
-    by_cases hp : p.1 = k
-    · simp [hp]
-    · simp [hp]
-  · rename_i h
-    rw [List.map_append]
-    have : d.map (fun p => if (p.1 == k) = true then (k, w) else p) = d := by
-      conv => rhs; rw [← List.map_id d]
-      apply List.map_congr_left; intro p hp
-      have : (p.1 == k) = false := by
-        cases hpk : (p.1 == k) with
-        | false => rfl
-        | true => exact absurd (List.any_eq_true.mpr ⟨p, hp, hpk⟩) h
-      simp [this]
-    simpa using this
-
-/-! ### the tag continuation scan -/
-
-/-- what the hand-written `scanCont` returns for a loop outcome -/
-def toScan : LoopRes → Option Nat × Nat
-  | .done m => (some (m + 1), m + 1)
-  | .indexErr m => (none, m)
-  | .fuel => (none, 0)
-
-theorem while1_scan (data : Bytes) (ofs : Nat) : ∀ (f n : Nat), 1 ≤ f → data.length + 1 ≤ ofs + n + f →
-    _decode_while1 data ofs f n ≠ .fuel ∧ toScan (_decode_while1 data ofs f n) = scanCont f data ofs n := by
-  intro f
-  induction f with
-  | zero => intro n h; omega
-  | succ f ih =>
-    intro n _ hlen
-    unfold _decode_while1 scanCont
-    cases hb : data[ofs + n]? with
-    | none => simp [toScan]
-    | some b =>
-      have hlt : ofs + n < data.length := by
-        rcases List.getElem?_eq_some_iff.mp hb with ⟨h, _⟩; exact h
-      by_cases hc : (b &&& 128 != 0) = true
-      · have := ih (n + 1) (by omega) (by omega)
-        simp only [hc, if_true]
-        exact this
-      · simp only [hc, if_false, Bool.false_eq_true]
-        simp [toScan]
-
-/-! ### `_decode` -/
-
-macro "leaf" : tactic => `(tactic| (simp only []; split; (· (split <;> (split <;> simp_all))); (· rfl)))
-
-/-- everything after the tag scan: parent-limit check of the tag, length field, value containment, value -/
-macro "tail_tac" : tactic => `(tactic| (
-  simp only [afterTag, getCons_set_nil, set_set, decide_eq_true_eq]
-  split
-  · rfl
-  · split
-    · rfl
-    · split
-      · simp_all
-      · rename_i lb hd
-        simp only [hd]
-        split
-        · split
-          · rfl
-          · split
-            · rfl
-            · leaf
-        · split
-          · rfl
-          · leaf))
-
-theorem decode_loop_eq {α} (conv : Bytes → Bytes → α) (fl si : Bool) (data : Bytes) :
-    ∀ (f ofs lim : Nat) (dec : DictC α) (log : Log),
-      _decode conv fl si data f ofs lim dec log = decodeSeqC conv fl si data f ofs lim dec log := by
-  intro f
-  induction f with
-  | zero => intros; rfl
-  | succ f ih =>
-    intro ofs lim dec log
-    unfold _decode decodeSeqC
-    simp only [ih]
-    by_cases h1 : ofs < lim
-    · simp only [h1, decide_true, if_true, not_true, if_false]
-      unfold readHeader
-      cases h0 : data[ofs]? with
-      | none => simp
-      | some b0 =>
-        simp only []
-        unfold scanTag
-        by_cases h1f : (b0 &&& 31 == 31) = true
-        · obtain ⟨hne, hs⟩ := while1_scan data ofs (data.length+1) 1 (by omega) (by omega)
-          simp only [h1f, if_true]
-          cases hw : _decode_while1 data ofs (data.length + 1) 1 with
-          | fuel => exact absurd hw hne
-          | indexErr m =>
-            rw [hw] at hs; simp only [toScan] at hs
-            simp only [← hs]
-          | done m =>
-            rw [hw] at hs; simp only [toScan] at hs
-            simp only [← hs]
-            tail_tac
-        · simp only [h1f, Bool.false_eq_true, if_false]
-          tail_tac
-    · simp [h1]
-
-/-- **`decode` translated from the source = the model's `decodeC`**, for every conversion function, option
-combination (absent = `None`) and input -/
-theorem tlv_decode {α} (conv : Bytes → Bytes → α) (fl si : Option Bool) (data : Bytes) :
-    TlvGen.decode conv fl si data = decodeC conv (fl.getD false) (si.getD false) data := by
-  unfold TlvGen.decode decodeC
-  rw [decode_loop_eq]
-  cases fl <;> cases si <;> rfl
-
-/-- **the chain to the property theorems**: the decoder translated from the source, run with any conversion
-function, stands in the naturality relation to the model's plain `decode` — same success or failure, same fault
-kind, tag and offset, dictionaries related by mapping the conversion over the primitive values — and its call
-log is the list of primitive objects of the parse.  C09, C17 and C18 are stated about `decode`, `decodeC` and
-`parseItems`; this carries them to what the source says. -/
-theorem tlv_decode_sim {α} (conv : Bytes → Bytes → α) (fl si : Option Bool) (data : Bytes) :
-    Refine.SimRel conv (Tlv.decode (fl.getD false) (si.getD false) data) (TlvGen.decode conv fl si data) := by
-  rw [tlv_decode]; exact Refine.decodeC_sim conv _ _ data
-
-/-! ### `_encode` -/
-
-theorem ewhile1_scan (tag : Bytes) : ∀ (f n : Nat), 1 ≤ f → tag.length + 1 ≤ n + f →
-    _encode_while1 tag f n ≠ .fuel ∧ toScan (_encode_while1 tag f n) = scanCont f tag 0 n := by
-  intro f
-  induction f with
-  | zero => intro n h; omega
-  | succ f ih =>
-    intro n _ hlen
-    unfold _encode_while1 scanCont
-    simp only [Nat.zero_add]
-    cases hb : tag[n]? with
-    | none => simp [toScan]
-    | some b =>
-      have hlt : n < tag.length := by
-        rcases List.getElem?_eq_some_iff.mp hb with ⟨h, _⟩; exact h
-      by_cases hc : (b &&& 128 != 0) = true
-      · have := ih (n + 1) (by omega) (by omega)
-        simp only [hc, if_true]
-        exact this
-      · simp only [hc, if_false, Bool.false_eq_true]
-        simp [toScan]
-
-theorem pow8_gt (k : Nat) : k + 1 ≤ 2 ^ (8 * k) := by
-  have h1 : k < 2 ^ k := Nat.lt_two_pow_self
-  have h2 : 2 ^ k ≤ 2 ^ (8 * k) := Nat.pow_le_pow_right (by decide) (by omega)
-  omega
-
-theorem ewhile2_done (value : Bytes) : ∀ (f k : Nat), 1 ≤ f → value.length + 1 ≤ k + f →
-    _encode_while2 value f k = .done (lenLoop value.length f k) := by
-  intro f
-  induction f with
-  | zero => intro k h; omega
-  | succ f ih =>
-    intro k _ hlen
-    unfold _encode_while2 lenLoop
-    by_cases hc : value.length > 2 ^ (8 * k) - 1
-    · have := pow8_gt k
-      simp only [hc, decide_true, if_true]
-      exact ih (k + 1) (by omega) (by omega)
-    · simp [hc]
-
-theorem toBE_one (n : Nat) : toBE 1 n = [UInt8.ofNat n] := by
-  simp only [toBE, Nat.pow_zero, Nat.div_one]
-  congr 1
-  apply UInt8.toNat_inj.mp
-  simp [UInt8.toNat_ofNat']
-
-
-def embed : Except EErr Bytes → ERes
-  | .ok b => .ok b
-  | .error e => .err e
-
-def ERes.pre (data : Bytes) : ERes → ERes
-  | .ok b => .ok (data ++ b)
-  | r => r
-
-/-- what the recursive call on a nested template must satisfy -/
-def CallOk (si : Bool) (c : Bool) (v : PyVal) : Prop :=
-  c = true → ∀ kvs, v = .dict kvs → _encode_call si v = embed (encodeItems si kvs)
-
-theorem len_part (si : Bool) (tagS : PyStr) (acc value : Bytes) :
-    (if (decide (value.length > 255) && si) = true then ERes.err ⟨tagS⟩ else
-      if (decide (value.length > 127) && !si) = true then
-        match _encode_while2 value value.length 1 with
-        | .fuel => ERes.fuel
-        | .indexErr _ => ERes.crash
-        | .done k => ERes.ok (acc ++ toBE 1 (k ||| 128) ++ (toBE k value.length ++ value))
-      else ERes.ok (acc ++ (toBE 1 value.length ++ value)))
-    = match lenField si value.length with
-      | none => ERes.err ⟨tagS⟩
-      | some l => ERes.ok (acc ++ l ++ value) := by
-  unfold lenField
-  by_cases h255 : (decide (value.length > 255) && si) = true
-  · simp [h255]
-  · simp only [h255, Bool.false_eq_true, if_false]
-    by_cases h127 : (decide (value.length > 127) && !si) = true
-    · have hlen : value.length > 127 := by
-        simp only [Bool.and_eq_true, decide_eq_true_eq] at h127; exact h127.1
-      rw [ewhile2_done value value.length 1 (by omega) (by omega)]
-      simp only [h127, if_true, toBE_one, List.append_assoc, List.cons_append, List.nil_append]
-    · simp only [h127, Bool.false_eq_true, if_false, List.append_assoc]
-
-theorem len_fin (si : Bool) (tagS : PyStr) (data tag value : Bytes) :
-    (match lenField si value.length with
-      | none => ERes.err ⟨tagS⟩
-      | some l => ERes.ok (data ++ tag ++ l ++ value)) =
-    ERes.pre data (embed (match lenField si value.length with
-      | none => Except.error ⟨tagS⟩
-      | some l => Except.ok (tag ++ l ++ value))) := by
-  cases lenField si value.length <;> simp [embed, ERes.pre, List.append_assoc]
-
-set_option hygiene false in
-/-- the value dispatch and the length field, once the tag is known to be well-formed -/
-macro "value_tac" hv:ident hx:ident htn:ident : tactic => `(tactic| (
-  split
-  · simp [embed, ERes.pre]
-  · rename_i hn
-    have hn' := hn
-    simp only [bne_iff_ne, ne_eq, Decidable.not_not] at hn'
-    have hlen : tagNameLen (b0 :: rest) = some (b0 :: rest).length := by
-      rw [$htn:ident, hn']
-    have hcall := $hv:ident _ $hx:ident hlen
-    simp only [List.headD_cons]
-    by_cases hc : (b0 &&& 32 != 0) = true
-    · simp only [hc, if_true]
-      cases v with
-      | dict kvs =>
-        have := hcall hc kvs rfl
-        simp only [PyVal.isMapping, Bool.not_true, Bool.false_eq_true, if_false, this, encodeValue, if_true]
-        cases encodeItems si kvs with
-        | error e => simp [embed, ERes.pre]
-        | ok value =>
-          simp only [embed]
-          exact (len_part si tagS _ value).trans (len_fin si tagS data _ value)
-      | str s => simp [PyVal.isMapping, encodeValue, embed, ERes.pre]
-      | bytes b => simp [PyVal.isMapping, encodeValue, embed, ERes.pre]
-      | other => simp [PyVal.isMapping, encodeValue, embed, ERes.pre]
-    · simp only [hc, Bool.false_eq_true, if_false]
-      cases v with
-      | dict kvs => simp [PyVal.isStr, PyVal.isBytes, encodeValue, embed, ERes.pre]
-      | str s =>
-        simp only [PyVal.isStr, if_true, PyVal.asStr?, encodeValue, Bool.false_eq_true, if_false]
-        cases bytesFromHex s with
-        | error e => simp [embed, ERes.pre]
-        | ok value =>
-          simp only []
-          exact (len_part si tagS _ value).trans (len_fin si tagS data _ value)
-      | bytes value =>
-        simp only [PyVal.isStr, PyVal.isBytes, Bool.false_eq_true, if_false, Bool.not_true, PyVal.asBytes?, encodeValue]
-        exact (len_part si tagS _ value).trans (len_fin si tagS data _ value)
-      | other => simp [PyVal.isStr, PyVal.isBytes, encodeValue, embed, ERes.pre]))
-
-theorem body_eq (si : Bool) (tagS : PyStr) (v : PyVal) (data : Bytes)
-    (hv : ∀ tag, bytesFromHex tagS = .ok tag → tagNameLen tag = some tag.length → CallOk si (tag.headD 0 &&& 32 != 0) v) :
-    _encode_body si data (tagS, v) = ERes.pre data (embed (encodeItem si (tagS, v))) := by
-  unfold _encode_body encodeItem
-  cases hx : bytesFromHex tagS with
-  | error e => simp [embed, ERes.pre]
-  | ok tag =>
-    cases tag with
-    | nil => simp [tagNameLen, embed, ERes.pre]
-    | cons b0 rest =>
-      simp only [List.getElem?_cons_zero]
-      by_cases h31 : (b0 &&& 31 == 31) = true
-      · obtain ⟨hne, hs⟩ := ewhile1_scan (b0 :: rest) ((b0 :: rest).length + 1) 1 (by omega) (by simp)
-        have hfuel : rest.length + 2 = (b0 :: rest).length + 1 := by simp
-        simp only [h31, if_true]
-        cases hw : _encode_while1 (b0 :: rest) ((b0 :: rest).length + 1) 1 with
-        | fuel => exact absurd hw hne
-        | indexErr m =>
-          rw [hw] at hs; simp only [toScan] at hs
-          have htn : tagNameLen (b0 :: rest) = none := by
-            simp only [tagNameLen, h31, if_true, hfuel, ← hs]
-          simp [htn, embed, ERes.pre]
-        | done m =>
-          rw [hw] at hs; simp only [toScan] at hs
-          have htn : tagNameLen (b0 :: rest) = some (m + 1) := by
-            simp only [tagNameLen, h31, if_true, hfuel, ← hs]
-          simp only [htn]
-          value_tac hv hx htn
-      · have htn : tagNameLen (b0 :: rest) = some 1 := by
-          simp only [tagNameLen, h31, Bool.false_eq_true, if_false]
-        simp only [h31, Bool.false_eq_true, if_false, htn]
-        value_tac hv hx htn
-
-
-theorem pre_nil (r : ERes) : ERes.pre [] r = r := by cases r <;> simp [ERes.pre]
-
-theorem for_cons (si : Bool) (data : Bytes) (kv : PyStr × PyVal) (rest : List (PyStr × PyVal))
-    (h3 : ∀ data, _encode_body si data kv = ERes.pre data (embed (encodeItem si kv)))
-    (h2 : ∀ b, encodeItem si kv = .ok b → ∀ data, _encode_for si data rest = ERes.pre data (embed (encodeItems si rest))) :
-    _encode_for si data (kv :: rest) = ERes.pre data (embed (encodeItems si (kv :: rest))) := by
-  unfold _encode_for encodeItems
-  rw [h3]
-  cases hb : encodeItem si kv with
-  | error e => simp [embed, ERes.pre]
-  | ok b =>
-    simp only [embed, ERes.pre, h2 b hb]
-    cases encodeItems si rest with
-    | error e => simp
-    | ok r => simp [List.append_assoc]
-
-/-- the `for` loop of `_encode`, started with any accumulator, appends what the model's `encodeItems` returns -/
-theorem encode_for_eq (si : Bool) : ∀ (kvs : List (PyStr × PyVal)) (data : Bytes),
-    _encode_for si data kvs = ERes.pre data (embed (encodeItems si kvs)) := by
-  intro kvs
-  apply encodeItems.induct si
-    (motive_1 := fun _ c v => CallOk si c v)
-    (motive_2 := fun kvs => ∀ data, _encode_for si data kvs = ERes.pre data (embed (encodeItems si kvs)))
-    (motive_3 := fun kv => ∀ data, _encode_body si data kv = ERes.pre data (embed (encodeItem si kv)))
-  · intro tagS kvs ih _ kvs' hk
-    cases hk
-    unfold _encode_call
-    rw [ih, pre_nil]
-  · intro tagS c kvs hc h; exact absurd h hc
-  · intro tagS s _ kvs hk; cases hk
-  · intro tagS c s hc b _ h; exact absurd h hc
-  · intro tagS c s hc a _ h; exact absurd h hc
-  · intro tagS b _ kvs hk; cases hk
-  · intro tagS c b hc h; exact absurd h hc
-  · intro tagS c _ kvs hk; cases hk
-  · intro data; unfold _encode_for encodeItems; simp [embed, ERes.pre]
-  · intro kv rest e he h3 data
-    exact for_cons si data kv rest h3 (by intro b hb; rw [he] at hb; cases hb)
-  · intro kv rest value _ e _ h3 h2 data
-    exact for_cons si data kv rest h3 (fun _ _ => h2)
-  · intro kv rest value _ value' _ h3 h2 data
-    exact for_cons si data kv rest h3 (fun _ _ => h2)
-  · intro tagS v a ha data
-    exact body_eq si tagS v data (by intro tag ht; rw [ha] at ht; cases ht)
-  · intro tagS v tag ht hn data
-    exact body_eq si tagS v data (by intro tag' ht' hn'; rw [ht] at ht'; cases ht'; rw [hn] at hn'; cases hn')
-  · intro tagS v tag ht n hn hne data
-    exact body_eq si tagS v data (by
-      intro tag' ht' hn'; rw [ht] at ht'; cases ht'; rw [hn] at hn'; cases hn'
-      simp at hne)
-  · intro tagS v tag ht n hn _ e _ h1 data
-    exact body_eq si tagS v data (by intro tag' ht' _; rw [ht] at ht'; cases ht'; exact h1)
-  · intro tagS v tag ht n hn _ value _ _ h1 data
-    exact body_eq si tagS v data (by intro tag' ht' _; rw [ht] at ht'; cases ht'; exact h1)
-  · intro tagS v tag ht n hn _ value _ l _ h1 data
-    exact body_eq si tagS v data (by intro tag' ht' _; rw [ht] at ht'; cases ht'; exact h1)
-
-/-- **`encode` translated from the source = the model's `encode`** for every tree and option -/
-theorem tlv_encode (si : Option Bool) (t : List (PyStr × PyVal)) :
-    TlvGen.encode si t = embed (Tlv.encode (si.getD false) t) := by
-  unfold TlvGen.encode TlvGen._encode Tlv.encode
-  cases si <;> simp only [Option.getD] <;> rw [encode_for_eq, pre_nil]
-
-end Pyemv.TlvRefines
